@@ -1,45 +1,276 @@
-import Gp.Model.SBuf
+import Gp.Lemmas.SBuf
 /-
   C18 — The serialize buffer holds exactly what was written, in position order.
-  Property theorems only (helper lemmas are local and prefixed `aux_`).
+
+  Model: `Gp/Model/SBuf.lean` (transcription of writer.go serializeBuffer / SerializeLayers).
+  Property theorems only; helper lemmas and the three definitions that occur in the
+  statements below live in `Gp/Lemmas/SBuf.lean`:
+
+    Inv b    :=  b.start ≤ b.len ∧ b.len ≤ b.mem.length ∧ b.mem.length = b.prepended + b.appended
+    encode   :   encode [] = [],  encode (l :: rest) = l.hdr (encode rest) ++ encode rest
+    AllOk    :   AllOk [] = True, AllOk (l :: rest) = (l.ok (encode rest) = true ∧ AllOk rest)
 -/
 namespace Gp.C18
 open Gp Gp.SBuf
 
-/-- Representation invariant of writer.go's serializeBuffer. -/
-def Inv (b : SBuf) : Prop :=
-  b.start ≤ b.len ∧ b.len ≤ b.mem.length ∧ b.mem.length = b.prepended + b.appended
+/-! ## 1. Invariant: holds initially, preserved by every operation, hence in every reachable state -/
 
-theorem aux_zeros_len (n : Nat) : (zeros n).length = n := by simp [zeros]
+theorem inv_new (p a : Nat) : Inv (new p a) := inv_new' p a
 
-theorem aux_contents_len (b : SBuf) (h : Inv b) : (contents b).length = b.len - b.start := by
-  obtain ⟨h1, h2, _⟩ := h
-  simp [contents, List.length_take, List.length_drop]; omega
+theorem inv_prepend (b : SBuf) (n : Nat) (h : Inv b) : Inv (prepend b n).1 := inv_prepend' b n h
 
-theorem inv_new (p a : Nat) : Inv (new p a) := by
-  simp [Inv, new, zeros]
+theorem inv_append (b : SBuf) (n : Nat) (h : Inv b) : Inv (append b n).1 := inv_append' b n h
 
-/-- Prepend: invariant preserved, window is exactly `n` bytes at the front of the contents
-    of the current generation, and the old contents follow unchanged. -/
+theorem inv_clear (b : SBuf) (h : Inv b) : Inv (clear b) := inv_clear' b h
+
+theorem inv_pushLayer (b : SBuf) (t : Int) (h : Inv b) : Inv (pushLayer b t) := h
+
+/-- Filling a window that lies inside the backing array keeps the invariant. -/
+theorem inv_fill (b : SBuf) (w : Win) (vs : List UInt8) (h : Inv b)
+    (hw : w.off + vs.length ≤ b.mem.length) : Inv (fill b w vs) := inv_fill' b w vs h hw
+
+/-- A single store through any window (current, stale, in or out of range) keeps the invariant. -/
+theorem inv_write (b b' : SBuf) (w : Win) (i : Nat) (v : UInt8) (h : Inv b)
+    (hw : write b w i v = .ok b') : Inv b' := by
+  unfold write at hw
+  split at hw
+  · split at hw
+    · cases hw; exact inv_set b _ v h
+    · cases hw; exact h
+  · cases hw
+
+theorem inv_step (b : SBuf) (op : Op) (h : Inv b) : Inv (step b op) := inv_step' b op h
+
+/-- Every reachable state satisfies the invariant, for every history and every size hint. -/
+theorem inv_run (p a : Nat) (ops : List Op) : Inv (run (new p a) ops) :=
+  inv_run_from _ ops (inv_new p a)
+
+/-! ## 2–4. Prepend / append / clear -/
+
+/-- PrependBytes(n): the returned slice has exactly `n` bytes, aliases the *current* backing
+    array, is the first `n` bytes of the new contents, and the old contents follow unchanged
+    (in both the in-place and the reallocating branch). -/
 theorem prepend_spec (b : SBuf) (n : Nat) (h : Inv b) :
     let r := prepend b n
     Inv r.1 ∧ r.2.n = n ∧ r.2.gen = r.1.gen ∧ r.2.off = r.1.start ∧ r.2.off + n ≤ r.1.len ∧
     (contents r.1).length = n + (contents b).length ∧
-    (contents r.1).drop n = contents b := by
-  have hcl := aux_contents_len b h
-  obtain ⟨h1, h2, h3⟩ := h
-  simp only [prepend]
-  by_cases hs : b.start < n
-  · simp only [hs, if_true]
-    by_cases hp : b.prepended < n
-    · simp only [hp, if_true]
-      refine ⟨?_, rfl, rfl, rfl, ?_, ?_, ?_⟩
-      · simp [Inv, cap, aux_zeros_len, hcl]; omega
-      · simp; omega
-      · simp [contents, cap, aux_zeros_len, hcl, List.length_take, List.length_drop]; omega
-      · simp only [contents]
-        rw [List.drop_take]  -- fallthrough handled below
-        all_goals sorry
-    · sorry
-  · sorry
+    (contents r.1).drop n = contents b ∧
+    r.1.layers = b.layers :=
+  ⟨inv_prepend b n h, rfl, rfl, rfl, prepend_start_len b n h,
+   prepend_contents_length b n h, prepend_contents_drop b n h, prepend_layers b n⟩
+
+/-- AppendBytes(n): the returned slice has exactly `n` bytes, aliases the current backing array,
+    is the last `n` bytes of the new contents, and the old contents precede it unchanged. -/
+theorem append_spec (b : SBuf) (n : Nat) (h : Inv b) :
+    let r := append b n
+    Inv r.1 ∧ r.2.n = n ∧ r.2.gen = r.1.gen ∧ r.2.off = b.len ∧
+    r.1.start = b.start ∧ r.2.off + n = r.1.len ∧
+    r.2.off - r.1.start = (contents b).length ∧
+    (contents r.1).length = (contents b).length + n ∧
+    (contents r.1).take (contents b).length = contents b ∧
+    r.1.layers = b.layers := by
+  obtain ⟨f1, f2, f3, -⟩ := append_fields b n
+  refine ⟨inv_append b n h, rfl, rfl, rfl, f1, ?_, ?_, append_contents_length b n h,
+    append_contents_take b n h, f3⟩
+  · show b.len + n = _; rw [f2]
+  · show b.len - _ = _; rw [f1, contents_length b h]
+
+/-- Clear empties both the contents and the recorded layers (and keeps the invariant). -/
+theorem clear_spec (b : SBuf) (h : Inv b) :
+    contents (clear b) = [] ∧ (clear b).layers = [] ∧ Inv (clear b) :=
+  ⟨contents_clear b, rfl, inv_clear b h⟩
+
+/-! ## 5. Prepend/append followed by filling the returned slice -/
+
+theorem fill_prepend (b : SBuf) (vs : List UInt8) (h : Inv b) :
+    contents (step b (.prepend vs)) = vs ++ contents b := contents_step_prepend b vs h
+
+theorem fill_append (b : SBuf) (vs : List UInt8) (h : Inv b) :
+    contents (step b (.append vs)) = contents b ++ vs := contents_step_append b vs h
+
+/-- General form: filling any current window lying inside the contents replaces exactly the
+    bytes of that window. -/
+theorem fill_spec (b : SBuf) (w : Win) (vs : List UInt8) (h : Inv b)
+    (hg : w.gen = b.gen) (h1 : b.start ≤ w.off) (h2 : w.off + vs.length ≤ b.len) :
+    contents (fill b w vs) =
+      (contents b).take (w.off - b.start) ++ vs ++
+        (contents b).drop (w.off - b.start + vs.length) := fill_contents b w vs h hg h1 h2
+
+/-! ## 6. Refinement of the abstract list specification -/
+
+/-- From any invariant state, running a history changes (contents, layers) exactly as the
+    abstract specification does. -/
+theorem refines_spec_from (b : SBuf) (ops : List Op) (h : Inv b) :
+    (contents (run b ops), (run b ops).layers) = ops.foldl specStep (contents b, b.layers) :=
+  refines_from b ops h
+
+/-- For every history and every pair of size hints the buffer's contents and recorded layers
+    are exactly those of the abstract specification. -/
+theorem refines_spec (p a : Nat) (ops : List Op) :
+    contents (run (new p a) ops) = (spec ops).1 ∧ (run (new p a) ops).layers = (spec ops).2 := by
+  have h := refines_from (new p a) ops (inv_new p a)
+  have h0 : contents (new p a) = [] := by simp [contents, new]
+  rw [h0] at h
+  exact ⟨congrArg Prod.fst h, congrArg Prod.snd h⟩
+
+/-! ## 7. Single stores through a returned slice -/
+
+/-- A store through a current window lying inside the contents changes exactly that byte. -/
+theorem write_spec (b : SBuf) (w : Win) (i : Nat) (v : UInt8) (h : Inv b)
+    (hg : w.gen = b.gen) (h1 : b.start ≤ w.off) (_h2 : w.off + w.n ≤ b.len) (hi : i < w.n) :
+    ∃ b', write b w i v = .ok b' ∧
+      contents b' = (contents b).set (w.off - b.start + i) v ∧ Inv b' ∧
+      b'.start = b.start ∧ b'.len = b.len ∧ b'.layers = b.layers ∧ b'.gen = b.gen ∧
+      b'.prepended = b.prepended ∧ b'.appended = b.appended := by
+  refine ⟨_, write_current b w i v hg hi, ?_, inv_set b _ v h, rfl, rfl, rfl, rfl, rfl, rfl⟩
+  rw [contents_set b _ v (by omega)]
+  congr 1; omega
+
+/-- The stored byte is the one read back at that position of the contents. -/
+theorem write_read (b : SBuf) (w : Win) (i : Nat) (v : UInt8) (h : Inv b)
+    (hg : w.gen = b.gen) (h1 : b.start ≤ w.off) (h2 : w.off + w.n ≤ b.len) (hi : i < w.n) :
+    ∃ b', write b w i v = .ok b' ∧ (contents b')[w.off - b.start + i]? = some v := by
+  obtain ⟨b', hw, hc, -⟩ := write_spec b w i v h hg h1 h2 hi
+  refine ⟨b', hw, ?_⟩
+  have hcl := contents_length b h
+  rw [hc, List.getElem?_set_self (by omega)]
+
+/-- A store through a stale slice (one handed out before a reallocation) does not reach the buffer. -/
+theorem write_stale (b : SBuf) (w : Win) (i : Nat) (v : UInt8)
+    (hg : w.gen ≠ b.gen) (hi : i < w.n) : write b w i v = .ok b := by
+  simp [write, hg, hi]
+
+/-- A store past the end of the returned slice panics (index out of range). -/
+theorem write_oob (b : SBuf) (w : Win) (i : Nat) (v : UInt8) (hi : ¬ i < w.n) :
+    write b w i v = .panic .index := by
+  simp [write, hi]
+
+/-! ## 8. Earlier slices across later growth -/
+
+/-- Prepend without reallocation: same backing array, and every earlier window that was inside
+    the contents is still inside the contents. -/
+theorem window_survives_prepend (b : SBuf) (n : Nat) (hn : ¬ b.start < n) :
+    (prepend b n).1.gen = b.gen ∧ (prepend b n).1.mem = b.mem ∧
+    ∀ w : Win, b.start ≤ w.off → w.off + w.n ≤ b.len →
+      (prepend b n).1.start ≤ w.off ∧ w.off + w.n ≤ (prepend b n).1.len := by
+  rw [prepend_eq]; simp only [hn, if_false]
+  refine ⟨trivial, trivial, ?_⟩
+  intro w h1 h2; exact ⟨by omega, h2⟩
+
+/-- Append without reallocation: same backing array, earlier windows stay inside the contents. -/
+theorem window_survives_append (b : SBuf) (n : Nat) (hn : ¬ cap b - b.len < n) :
+    (append b n).1.gen = b.gen ∧ (append b n).1.mem = b.mem ∧
+    ∀ w : Win, b.start ≤ w.off → w.off + w.n ≤ b.len →
+      (append b n).1.start ≤ w.off ∧ w.off + w.n ≤ (append b n).1.len := by
+  rw [append_eq]; simp only [hn, if_false]
+  refine ⟨trivial, trivial, ?_⟩
+  intro w h1 h2; exact ⟨h1, by omega⟩
+
+/-- Prepend with reallocation: a fresh backing array, so every earlier slice is stale and
+    stores through it no longer reach the buffer. -/
+theorem window_stale_prepend (b : SBuf) (n : Nat) (hn : b.start < n) :
+    (prepend b n).1.gen = b.gen + 1 ∧
+    ∀ w : Win, w.gen ≤ b.gen → w.gen ≠ (prepend b n).1.gen ∧
+      ∀ i v, i < w.n → write (prepend b n).1 w i v = .ok (prepend b n).1 := by
+  have hg : (prepend b n).1.gen = b.gen + 1 := by
+    rw [prepend_eq]; simp only [hn, if_true]; rfl
+  refine ⟨hg, fun w hw => ?_⟩
+  have hne : w.gen ≠ (prepend b n).1.gen := by omega
+  exact ⟨hne, fun i v hi => write_stale _ w i v hne hi⟩
+
+/-- Append with reallocation: likewise. -/
+theorem window_stale_append (b : SBuf) (n : Nat) (hn : cap b - b.len < n) :
+    (append b n).1.gen = b.gen + 1 ∧
+    ∀ w : Win, w.gen ≤ b.gen → w.gen ≠ (append b n).1.gen ∧
+      ∀ i v, i < w.n → write (append b n).1 w i v = .ok (append b n).1 := by
+  have hg : (append b n).1.gen = b.gen + 1 := by
+    rw [append_eq]; simp only [hn, if_true]; rfl
+  refine ⟨hg, fun w hw => ?_⟩
+  have hne : w.gen ≠ (append b n).1.gen := by omega
+  exact ⟨hne, fun i v hi => write_stale _ w i v hne hi⟩
+
+/-- Generations never decrease, so every slice handed out in the past has `gen ≤` the current one. -/
+theorem gen_mono_run (b : SBuf) (ops : List Op) : b.gen ≤ (run b ops).gen := by
+  induction ops generalizing b with
+  | nil => exact Nat.le_refl _
+  | cons op ops ih => exact Nat.le_trans (gen_le_step b op) (ih (step b op))
+
+/-- "Bytes written earlier survive every later growth", stated on contents: whatever the buffer
+    held is still there, in the same relative position, after any further prepend or append
+    (reallocating or not), with the new bytes before resp. after it. -/
+theorem contents_survive (b : SBuf) (vs : List UInt8) (h : Inv b) :
+    (contents (step b (.prepend vs))).drop vs.length = contents b ∧
+    (contents (step b (.append vs))).take (contents b).length = contents b := by
+  rw [fill_prepend b vs h, fill_append b vs h]
+  exact ⟨List.drop_left' rfl, List.take_left' rfl⟩
+
+/-! ## 9. SerializeLayers -/
+
+/-- SerializeLayers(ls) with `ls` outermost-first and every serializer succeeding: the buffer is
+    cleared first (the result does not depend on prior contents), layers are recorded
+    innermost-first, and the bytes are the nested encoding — outermost layer's bytes first. -/
+theorem serialize_layers_order (b : SBuf) (ls : List Ser) (h : Inv b) (hok : AllOk ls) :
+    ∃ b', serializeLayers b ls = .ok b' ∧ Inv b' ∧
+      b'.layers = (ls.map (·.typ)).reverse ∧ contents b' = encode ls := by
+  have hg := go_refines (clear b) ls.reverse (inv_clear b h)
+  rw [contents_clear, show (clear b).layers = [] from rfl, (goSpec_reverse ls).1 hok] at hg
+  obtain ⟨b', h1, h2, h3, h4⟩ := hg
+  exact ⟨b', h1, h2, h4, h3⟩
+
+/-- If some serializer fails, SerializeLayers returns that error. -/
+theorem serialize_layers_err (b : SBuf) (ls : List Ser) (h : Inv b) (hok : ¬ AllOk ls) :
+    serializeLayers b ls = .err "serialize" := by
+  have hg := go_refines (clear b) ls.reverse (inv_clear b h)
+  rw [contents_clear, show (clear b).layers = [] from rfl, (goSpec_reverse ls).2 hok] at hg
+  exact hg
+
+/-- SerializeLayers never panics (from any buffer state whatsoever). -/
+theorem serialize_layers_no_panic (b : SBuf) (ls : List Ser) (k : PanicKind) :
+    serializeLayers b ls ≠ .panic k := go_no_panic (clear b) ls.reverse k
+
+/-- The outermost layer's header is a prefix of the produced bytes. -/
+theorem serialize_layers_outermost_first (b : SBuf) (l : Ser) (rest : List Ser) (h : Inv b)
+    (hok : AllOk (l :: rest)) :
+    ∃ b', serializeLayers b (l :: rest) = .ok b' ∧
+      contents b' = l.hdr (encode rest) ++ encode rest ∧
+      b'.layers.getLast? = some l.typ := by
+  obtain ⟨b', h1, -, h3, h4⟩ := serialize_layers_order b (l :: rest) h hok
+  refine ⟨b', h1, h4, ?_⟩
+  rw [h3]; simp
+
+/-! ## 10. Non-vacuity -/
+
+/-- A reachable state after two reallocations and a clear, with non-empty contents. -/
+example : contents (run (new 0 0) [.append [1,2], .prepend [3], .clear, .prepend [9,8,7]])
+    = [9,8,7] := by decide
+
+example : contents (run (new 0 0) [.append [1,2], .prepend [3], .append [4]]) = [3,1,2,4] := by
+  decide
+
+example : (run (new 2 1) [.append [1,2], .push 5, .prepend [3,4,5]]).gen = 2 := by decide
+
+/-- The hypotheses of `write_spec` are satisfiable: store through the slice returned by prepend. -/
+example :
+    let r := prepend (run (new 0 0) [.append [1,2]]) 2
+    r.2.gen = r.1.gen ∧ r.1.start ≤ r.2.off ∧ r.2.off + r.2.n ≤ r.1.len ∧
+    (write r.1 r.2 1 7).isOk = true := by decide
+
+/-- The hypotheses of `serialize_layers_order` are satisfiable, with a non-trivial result. -/
+example :
+    let eth : Ser := { typ := 1, hdr := fun p => [0xE0, UInt8.ofNat p.length], ok := fun _ => true }
+    let ip  : Ser := { typ := 2, hdr := fun p => [0x45, UInt8.ofNat p.length], ok := fun _ => true }
+    let pay : Ser := { typ := 3, hdr := fun _ => [0xAA, 0xBB, 0xCC], ok := fun p => p.isEmpty }
+    AllOk [eth, ip, pay] ∧
+    encode [eth, ip, pay] = [0xE0, 5, 0x45, 3, 0xAA, 0xBB, 0xCC] ∧
+    (match serializeLayers (run (new 0 0) [.append [1,2]]) [eth, ip, pay] with
+     | .ok b' => some (contents b', b'.layers)
+     | _ => none) = some ([0xE0, 5, 0x45, 3, 0xAA, 0xBB, 0xCC], [3, 2, 1]) := by
+  refine ⟨⟨rfl, rfl, rfl, trivial⟩, by decide, by decide⟩
+
+/-- ... and so is the failure case. -/
+example :
+    let bad : Ser := { typ := 3, hdr := fun _ => [1], ok := fun p => !p.isEmpty }
+    ¬ AllOk [bad] ∧ serializeLayers (new 0 0) [bad] = .err "serialize" := by
+  refine ⟨by simp [AllOk, encode], by decide⟩
+
 end Gp.C18
